@@ -369,8 +369,7 @@ def native_playback(src, harness, test_src, real_map, logf, hang_is_repro=False)
         return None, "no playback test in Kani output"
     tname = m.group(1)
     e = env_offline()
-    if real_map:
-        e["RUSTFLAGS"] = "--cfg verif_real_map"
+    e["RUSTFLAGS"] = "--cfg verif_native" + (" --cfg verif_real_map" if real_map else "")
     cmd = ["cargo", "kani", "playback", "-Z", "concrete-playback", "--", tname]
     hung = False
     with open(logf, "w") as lf:
